@@ -479,6 +479,8 @@ func fixedWorkloadTexts() []string {
 		"m.a = 1", "1 = 2", "(i) = 3", "i ? (m.b = 1) : (10 + (st.Name = 2))", "fnS(strs...)", "fnV(1 ...)", "fnI()", "fnI(1, 2)", "s()", "m.zz!.k", "n!.a + np!.b", "fn0(1)", "abs()", "abs('x')", "typeof (arr = 1)",
 		"$a = i + f64 * 2, $b = $a % 7, [$a, $b, $a > $b ? 'gt' : 'le', -$a, ~i, i & 6 | 1 ^ 3]",
 		"[s + 1.5, s < 'z', m.b.c ?? 'none', m.zz.k]",
+		// chains of asserted and plain member accesses, succeeding and failing at each link
+		"[m!.b!.c, m!.b.c, m.b!.c, this!.m!.b!.c, (m!.b)!.c, m!.b!.c!.d]", "m!.zz!.k", "m!.b!.zz!.k", "st!.Name!.x ?? m!.b!.c",
 		"regexp(s, '^h.*o$') && regexp('abc', '[a-c]+') && !regexp(s, '^x')",
 		"[1 / 3, 2 / 3, 1e30 * 1e-30, 0.1 + 0.2 === 0.3, i64 === 9007199254740993, u64]",
 		"fnSV('k', strs...), fnV(1, 2, 3), fnA(m), fnC(1.5), typeof fn0() + typeof st.Name",
